@@ -59,14 +59,29 @@ func applies(r rule, relDir string) bool {
 // Generate writes the overlay for repo into workDir and returns the path of
 // the overlay JSON. injectDir holds <pkgpath-under-repo>/<file>.go trees.
 func Generate(repo, workDir, injectDir string, enableOSShim bool) (string, Stats, error) {
+	return generate(repo, workDir, injectDir, enableOSShim, true, "overlay")
+}
+
+// GenerateInjectOnly writes an overlay that only adds the accessor files (no
+// import-path shims): used for the free-running -race binary, where real
+// sync primitives must stay visible to the race detector.
+func GenerateInjectOnly(repo, workDir, injectDir string) (string, Stats, error) {
+	return generate(repo, workDir, injectDir, false, false, "overlay-race")
+}
+
+func generate(repo, workDir, injectDir string, enableOSShim, rewrite bool, name string) (string, Stats, error) {
 	var st Stats
-	outRoot := filepath.Join(workDir, "overlay")
+	outRoot := filepath.Join(workDir, name)
 	if err := os.RemoveAll(outRoot); err != nil {
 		return "", st, err
 	}
 	replace := map[string]string{}
 	fset := token.NewFileSet()
-	for _, root := range scanRoots {
+	roots := scanRoots
+	if !rewrite {
+		roots = nil
+	}
+	for _, root := range roots {
 		err := filepath.Walk(filepath.Join(repo, root), func(path string, fi os.FileInfo, err error) error {
 			if err != nil {
 				return err
@@ -166,7 +181,7 @@ func Generate(repo, workDir, injectDir string, enableOSShim bool) (string, Stats
 		}
 	}
 	js, _ := json.MarshalIndent(map[string]any{"Replace": replace}, "", " ")
-	ov := filepath.Join(workDir, "overlay.json")
+	ov := filepath.Join(workDir, name+".json")
 	if err := os.MkdirAll(workDir, 0o755); err != nil {
 		return "", st, err
 	}
